@@ -1,0 +1,54 @@
+//! Verification hooks, compiled only with `--cfg chrono_verif`.
+//!
+//! Read-only access to the private TZif / POSIX-TZ machinery for the external verification
+//! harness: build a zone from TZif bytes or from a `TZ` value with the parser's `Ok`/`Err` visible,
+//! dump it in a canonical text form, and run the two offset lookups. Not part of the public API.
+
+use super::rule::TransitionRule;
+use super::timezone::TimeZone;
+use crate::{MappedLocalTime, NaiveDateTime};
+
+/// A parsed time zone.
+#[derive(Debug)]
+pub struct Zone(TimeZone);
+
+/// Parse TZif data (the route `TZ=:/path` takes after reading the file).
+pub fn from_tzif(bytes: &[u8]) -> Result<Zone, String> {
+    TimeZone::from_tz_data(bytes).map(Zone).map_err(|e| format!("{:?}", e))
+}
+
+/// The zone selected for a given value of the `TZ` environment variable (`None` = unset),
+/// without the fallbacks that `Local` applies on error.
+pub fn from_env_tz(tz: Option<&str>) -> Result<Zone, String> {
+    TimeZone::local(tz).map(Zone).map_err(|e| format!("{:?}", e))
+}
+
+/// Parse a POSIX TZ rule string; returns the canonical dump of the rule.
+pub fn rule_from_tz_string(tz: &[u8], use_string_extensions: bool) -> Result<String, String> {
+    TransitionRule::from_tz_string(tz, use_string_extensions)
+        .map(|r| r.verif_dump())
+        .map_err(|e| format!("{:?}", e))
+}
+
+impl Zone {
+    /// Canonical dump: `types=[off,dst,name;…] trans=[time:type,…] leaps=[time:corr,…] rule=…`.
+    pub fn dump(&self) -> String {
+        self.0.verif_dump()
+    }
+
+    /// Lookup by instant: `(utc offset, is_dst)`.
+    pub fn offset_at(&self, unix_time: i64) -> Result<(i32, bool), String> {
+        self.0
+            .find_local_time_type(unix_time)
+            .map(|t| (t.offset(), t.verif_dump().split(',').nth(1) == Some("1")))
+            .map_err(|e| format!("{:?}", e))
+    }
+
+    /// Lookup by wall-clock time: the candidate UTC offsets.
+    pub fn offsets_for_local(&self, local: NaiveDateTime) -> Result<MappedLocalTime<i32>, String> {
+        self.0
+            .find_local_time_type_from_local(local)
+            .map(|m| m.map(|t| t.offset()))
+            .map_err(|e| format!("{:?}", e))
+    }
+}
